@@ -355,3 +355,74 @@ def fidelity(tier, seed):
     """A-FRONT guard: the scalar functions of the files under contract, interpreter (float mode) vs compiled real code, bit for bit"""
     from gm2v import fidelity as _fid
     return _fid.scalar_guard(['src/THDM/gm2_2loop_B.cpp'], ['src/gm2_ffunctions.cpp', 'src/gm2_dilog.cpp', 'src/gm2_numerics.cpp'], n_calls=25 if tier == 'quick' else 200, seed=seed, ns_prefix='thdm::', approx=('T7', 'T8'))
+
+# ------------------------------------------------------------------------------------------------ fermionic two-loop part: Barr-Zee quark functions and their call sites
+FF = 'src/gm2_ffunctions.cpp'
+F2 = 'src/THDM/gm2_2loop_F.cpp'
+
+def make_ff(fn, nargs, names, pre_fn, stubs_extra):
+    @obligation('C11.domains.%s' % fn, fns=[(FF, fn)] + ([(FF, 'shift')] if fn in ('FCWu', 'FCWd') else []))
+    def ob(ctx):
+        """ensures (all paths, all positive arguments): no division by zero, no logarithm/square root outside its domain (for FCWu/FCWd: after the symmetric
+        shift the difference quotient's denominator is non-zero; for phi_over_y: outside the two windows around the zeros of y the denominator y is non-zero)"""
+        vs = [ctx.real(n) for n in names]
+        pre = pre_fn(vs)
+        stubs = dict(SPECIAL)
+        stubs.pop(fn, None)
+        stubs.update(stubs_extra)
+        it = Interp(ctx.w, mode='sym', stubs=stubs, assumptions=list(pre))
+        def thunk():
+            try:
+                return it.call(fn, list(vs), file=FF)
+            except Exception as e:
+                if 'NaN' in str(e):
+                    return 'NaN'
+                raise
+        ps = it.run_paths(thunk, max_paths=400)
+        ctx.merge_rules(it)
+        if not ps:
+            ctx.record('paths', ERROR, 'B', 0, 'no feasible path')
+            return
+        for k, (s, r, e) in enumerate(ps):
+            ctx.sides('path%d' % k, s, pre, timeout_ms=20000)
+        ctx.record('paths', PROVED, 'B', 0, '%d feasible paths' % len(ps))
+    return ob
+
+# preconditions (documented in the code: "xd == yd <=> xu == yu, per definition"; physical: the down-type quark is much lighter than W and H+-)
+def _pre_fcw(vs):
+    xu_, xd_, yu_, yd_ = vs[:4]
+    return [xu_ > 0, xd_ > 0, yu_ > 0, yd_ > 0, xu_ * yd_ == xd_ * yu_, xd_ < Fr(1, 4), yd_ < Fr(1, 4)]
+
+def _pre_fcs(vs):
+    return [vs[0] > 0, vs[1] > 0, vs[1] < Fr(1, 4)]
+
+make_ff('FCWu', 6, ['xu', 'xd', 'yu', 'yd', 'qu', 'qd'], _pre_fcw, {'f_CSu': uf('f_CSu'), 'f_CSd': uf('f_CSd')})
+make_ff('FCWd', 6, ['xu', 'xd', 'yu', 'yd', 'qu', 'qd'], _pre_fcw, {'f_CSu': uf('f_CSu'), 'f_CSd': uf('f_CSd')})
+make_ff('f_CSd', 4, ['xu', 'xd', 'qu', 'qd'], _pre_fcs, {'phi_over_y': uf('phi_over_y')})
+make_ff('f_CSu', 4, ['xu', 'xd', 'qu', 'qd'], _pre_fcs, {'phi_over_y': uf('phi_over_y')})
+make_ff('phi_over_y', 2, ['xu', 'xd'], _pre_fcs, {})
+
+@obligation('C11.call_sites.fermionic_charged', fns=[(F2, 'fuHp'), (F2, 'fdHp'), (F2, 'flHp')])
+def _(ctx):
+    """ensures: fuHp/fdHp call FCWu/FCWd with xu = mu^2/ms^2, xd = md^2/ms^2, yu = mu^2/mw^2, yd = md^2/mw^2 -- positive, xu yd == xd yu, and xd, yd < 1/4
+    for md^2 < min(ms^2, mw^2)/4 (down-type quark lighter than half the W and charged-Higgs masses)"""
+    ms2, md2, mu2, mw2, mz2 = [ctx.real(n) for n in ('ms2', 'md2', 'mu2', 'mw2', 'mz2')]
+    pre = [ms2 > 0, md2 > 0, mu2 > 0, mw2 > 0, mz2 > mw2, 4 * md2 < ms2, 4 * md2 < mw2]
+    for fn, callee in (('fuHp', 'FCWu'), ('fdHp', 'FCWd')):
+        calls = []
+        stubs = dict(SPECIAL)
+        stubs[callee] = lambda it, a, t, calls=calls: (calls.append(list(a)), it.uf('h_' + callee, *a))[1]
+        it = Interp(ctx.w, mode='sym', stubs=stubs, assumptions=list(pre))
+        fds = [f for f in ctx.w.find(fn, F2) if len(f.params) == 5 and f.params[3].type.name == 'double']
+        if len(fds) != 1:
+            ctx.record(fn, ERROR, 'B', 0, 'extraction: %d five-parameter overloads of %s' % (len(fds), fn))
+            continue
+        ps = it.run_paths(lambda: it.invoke(fds[0], [ms2, md2, mu2, mw2, mz2], None))
+        ctx.merge_rules(it)
+        for k, (s, r, e) in enumerate(ps):
+            ctx.sides('%s.path%d' % (fn, k), s, pre)
+        if len(calls) != 1:
+            ctx.record(fn + '.calls', FAILED, 'B', 0, '%d calls of %s' % (len(calls), callee))
+            continue
+        a = [z3real(x) for x in calls[0]]
+        ctx.prove(fn + '.precondition_of_' + callee, pre, z3.And(*_pre_fcw(a)), check_vacuity=False)
